@@ -642,25 +642,21 @@ def goOrder (E : Env) (m : String) (r : Run) (d : Done) : Option Nat :=
   if !recvOK r && m != "substr" then none else      -- substr (Annex B.2.3) has no coercibility check
   let all := List.range (r.args.length + 1)
   match m with
-  | "charAt" | "charCodeAt" => inOrder [1, 0] d                 -- idx := Argument(0).number() precedes This.string()
+  | "charAt" | "charCodeAt" => inOrder [0, 1] d                 -- value := This.string(), then Argument(0).number()
   | "concat" => inOrder all d
   | "indexOf" => inOrder ([0, 1] ++ (if r.args.length ≥ 2 then [2] else [])) d
   | "lastIndexOf" =>
-    -- `if length == 0 { return … }` precedes `start := ArgumentList[1].number()`
-    let empty := did d 0 && (thisString E (recvOf E r d)).isEmpty
-    inOrder ([0, 1] ++ (if present r 1 ∧ !empty then [2] else [])) d
+    -- `start := ArgumentList[1].number()` precedes the `length == 0` shortcut
+    inOrder ([0, 1] ++ (if present r 1 then [2] else [])) d
   | "localeCompare" => inOrder [0, 1] d
   | "slice" | "substring" | "substr" =>
     inOrder ([0, 1] ++ (if r.args.length ≠ 1 ∧ present r 1 then [2] else [])) d
   | "split" =>
-    -- target, then the limit (if defined); `limit == 0` returns before the separator is converted
-    let lim0 := present r 1 && did d 2 && decide (toUint32 E.c5 (valueOf r d 2) = 0)
-    inOrder ([0] ++ (if present r 1 then [2] else []) ++ (if present r 0 ∧ !lim0 then [1] else [])) d
+    -- target, then the limit (if defined), then the separator (also on the `limit == 0` path) unless undefined
+    inOrder ([0] ++ (if present r 1 then [2] else []) ++ (if present r 0 then [1] else [])) d
   | "replace" =>
-    -- target, searchValue, then the match; replaceValue.string() only inside `found != nil`
-    let found := did d 0 && did d 1 &&
-      (indexBytes (thisString E (recvOf E r d)) (toStr E (valueOf r d 1))).isSome
-    inOrder ([0, 1] ++ (if found then [2] else [])) d
+    -- target, searchValue, then replaceValue.string() up front (not callable), then the search
+    let _ := E; inOrder [0, 1, 2] d
   | _ => inOrder [0] d
 
 def goPlan (E : Env) (m : String) : Plan where
